@@ -36,13 +36,26 @@ class PairExec(Exec):
         if op["op"] == "git" and ctx:
             argv = op["argv"]
             has_path = "--" in argv or argv[:1] in (["mv"], ["rm"])
-            if ctx == "dash_C" or has_path:
+            if ctx == "symlink_C":
+                # the repository named through a symlinked spelling of its path (and, for commands without pathspecs,
+                # one of its subdirectories)
+                link = os.path.join(self.b.w.root, "lnk")
+                if not os.path.islink(link):
+                    os.symlink(self.b.w.root, link)
+                rd = self.b.trace["world"].get("repo_dir") or "r0"
+                sub = v.get("subdir", "src")
+                deep = (not has_path) and os.path.isdir(os.path.join(self.b.repos["r0"], sub))
+                ob["argv"] = ["-C", "{ROOT}/lnk/" + rd + ("/" + sub if deep else "")] + list(argv)
+                ob["cwd"] = "/"
+            elif ctx == "dash_C" or has_path:
                 ob["argv"] = ["-C", "{REPO}"] + list(argv)
                 ob["cwd"] = "/"
             elif ctx == "subdir":
                 ob["cwd"] = v.get("subdir", "src")
         if op["op"] == "git" and v.get("git_env"):
             ob["env"] = dict(op.get("env") or {}, **v["git_env"])
+        if op.get("b_crash"):
+            ob["crash_plan"] = op["b_crash"]
         return ob
 
     def apply(self, op):
@@ -50,6 +63,12 @@ class PairExec(Exec):
             self.b.apply(dict(x, dt=0))
         ra = Exec.apply(self, op)
         rb = self.b.apply(self.transform(op))
+        # faults injected in the variant world count for the run
+        for k, v in self.b.faults.items():
+            self.faults[k] = self.faults.get(k, 0) + v
+        self.b.faults = {}
+        if self.b.probes.get("ckpt_crash.fired"):
+            self.probe("ckpt_crash.fired", self.b.probes.pop("ckpt_crash.fired"))
         for x in op.get("b_after") or []:
             self.b.apply(dict(x, dt=0))
         self.b.w.now_ms = self.w.now_ms
